@@ -102,7 +102,8 @@ theorem decodeBody_bodyOf (om : Omit) (n : Nat) (r : Record) (bin : Nat) (h : WF
     unsafeBytes_append r.name _ r.name.length rfl, discard_cons,
     unsafeBytes_append (cigarBytes r.cigar) _ _ (cigarBytes_length _), readCigarOps_cigarBytes,
     unsafeBytes_append r.seq _ _ hseq, unsafeBytes_append (qualBytes r) _ _ (qualBytes_length h),
-    unsafeBytes_all, parseAux_encAuxAll r.aux h.aux_ok, linkRefs_ok n r.ref r.mateRef _ h.ref_ok h.mate_ok,
+    unsafeBytes_all, parseAux_encAuxAll r.aux h.aux_ok, finish, Bool.false_eq_true,
+    linkRefs_ok n r.ref r.mateRef _ h.ref_ok h.mate_ok,
     BitVec.ofNat_toNat, BitVec.setWidth_eq]
   cases om <;> simp [norm, omitAux, omitAll]
 
@@ -113,37 +114,11 @@ theorem bodyOf_length (bin : Nat) (tags : List Byte) (r : Record) :
   simp only [bodyOf, List.length_append, List.length_cons, putI32_length, putU16_length, cigarBytes_length]
   omega
 
-theorem endLoop_ok (cs : List (BitVec 32)) (h : ∀ c ∈ cs, cigarType c ≤ 9) :
-    ∀ pos e : Int, ∃ v, endLoop cs pos e = .ok v := by
-  induction cs with
-  | nil => intro pos e; exact ⟨e, rfl⟩
-  | cons c cs ih =>
-    intro pos e
-    have hc := h c (by simp)
-    have : ∃ k, consumeRef[cigarType c]? = some k := by
-      have : cigarType c < consumeRef.length := by simp [consumeRef]; omega
-      exact ⟨consumeRef[cigarType c], by simp [this]⟩
-    obtain ⟨k, hk⟩ := this
-    simp only [endLoop, hk]
-    exact ih (fun d hd => h d (by simp [hd])) _ _
-
-theorem recordEnd_ok {n : Nat} {r : Record} (h : WF n r) : ∃ e, recordEnd r = .ok e := by
-  unfold recordEnd
-  split
-  · exact ⟨_, rfl⟩
-  · exact endLoop_ok r.cigar h.cigar_ops r.pos r.pos
-
-theorem recordBin_ok {n : Nat} {r : Record} (h : WF n r) : ∃ bin, recordBin r = .ok bin := by
-  unfold recordBin
-  obtain ⟨e, he⟩ := recordEnd_ok h
-  rw [he]; exact ⟨_, rfl⟩
-
 /-- the writer accepts every well-formed record and writes the length prefix followed by the fields -/
 theorem encodeRecord_ok {n : Nat} {r : Record} (h : WF n r) :
-    ∃ bin, recordBin r = .ok bin ∧
+    ∃ bin, recordBin r = bin ∧
       encodeRecord r = .ok (putI32 (recLen r (encAuxAll r.aux)) ++ bodyOf bin (encAuxAll r.aux) r) := by
-  obtain ⟨bin, hb⟩ := recordBin_ok h
-  refine ⟨bin, hb, ?_⟩
+  refine ⟨recordBin r, rfl, ?_⟩
   have hn := h.name_len
   have c1 : (r.name.length == 0 || decide (r.name.length > 254)) = false := by
     simp only [Bool.or_eq_false_iff, beq_eq_false_iff_ne, decide_eq_false_iff_not]
@@ -153,8 +128,8 @@ theorem encodeRecord_ok {n : Nat} {r : Record} (h : WF n r) :
   split
   · rename_i q hq
     have := h.qual_len q hq
-    simp [this, buildAux_ok r.aux h.aux_ok, hb, encodeWith_eq]
-  · simp [buildAux_ok r.aux h.aux_ok, hb, encodeWith_eq]
+    simp [this, buildAux_ok r.aux h.aux_ok, encodeWith_eq]
+  · simp [buildAux_ok r.aux h.aux_ok, encodeWith_eq]
 
 theorem recLen_eq {n : Nat} {r : Record} (h : WF n r) (bin : Nat) :
     recLen r (encAuxAll r.aux) = (bodyOf bin (encAuxAll r.aux) r).length := by
